@@ -13,14 +13,14 @@ def build_translator(scratch):
     return out
 
 
-def check_obligations(scratch, pid, repo=None):
+def check_obligations(scratch, pid, repo=None, dirs=None):
     """Returns dict(ok, theorems, closed, axioms, output, facts_path, unsupported)."""
     t0 = time.time()
     tr = build_translator(scratch)
     gen = scratch.path("gen-" + pid)
     os.makedirs(gen, exist_ok=True)
     facts = os.path.join(gen, "LockFacts.v")
-    p = core.sh([tr, repo or scratch.repo, facts], timeout=300, check=False)
+    p = core.sh([tr] + (["-dirs=" + dirs] if dirs else []) + [repo or scratch.repo, facts], timeout=300, check=False)
     if p.returncode != 0:
         return {"ok": False, "stage": "translator", "output": (p.stdout + p.stderr)[-3000:], "theorems": [], "closed": 0, "axioms": [], "facts": facts}
     ob = "Ob%s.v" % pid
